@@ -1,9 +1,11 @@
 /- curly.go `computeWebserviceScore` as translated on this run IS the model's (`Curly.wsScoreE`) -/
 import Restful.Lemmas.TieImpCurlyTok
+import Restful.Lemmas.TieImpTactic
 namespace Restful
 namespace TieImp
 namespace T2
 open Imp
+set_option linter.unusedSimpArgs false
 
 abbrev WsState := Option (Bool × Int) × Int
 
@@ -12,12 +14,13 @@ def wsPost (s : WsState) : Option Int :=
   | some r => scoreProj r
   | none => some s.2
 
-def wsBody (X : ImpGen.Ext) (qs toks : List Str) (i : Int) (s : WsState) : Option (ForInStep WsState) := do
-  let each ← at? qs i
-  let other ← at? toks i
-  if (len each == 0 && len other == 0) then pure (.yield ⟨none, s.2 + 1⟩)
-  else if (decide (len other > 0) && Str.hasPrefix ['{'] other) then
-    if len each == 0 then pure (.done ⟨some (false, s.2), s.2⟩)
+/-- one iteration of the loop after the two tokens have been read, written by hand with the emptiness tests in
+    normal form (`tie_norm`) -/
+def wsStep (X : ImpGen.Ext) (toks : List Str) (i : Int) (each other : Str) (s : WsState) :
+    Option (ForInStep WsState) :=
+  if (each.isEmpty && other.isEmpty) then pure (.yield ⟨none, s.2 + 1⟩)
+  else if Str.hasPrefix ['{'] other then
+    if each.isEmpty then pure (.done ⟨some (false, s.2), s.2⟩)
     else if index other [':'] != -1 then do
         let x ← ImpGen.CurlyRouter_regularMatchesPathToken X other (index other [':']) each
         if !x.1 then pure (.done ⟨some (false, s.2), s.2⟩) else pure (.yield ⟨none, s.2 + 1⟩)
@@ -31,12 +34,17 @@ theorem len_beq_zero {α : Type} (xs : List α) : (len xs == 0) = xs.isEmpty := 
 theorem len_pos {α : Type} (xs : List α) : decide (len xs > 0) = !xs.isEmpty := by
   cases xs <;> simp [len] <;> omega
 
-theorem ws_loop (rx : Str → Str → Bool × GoErr) (full : Str → Str → Bool) (join : Str → Str → Str)
-    (qs toks : List Str) (f : Int → WsState → Option (ForInStep WsState))
-    (hf : ∀ i s, f i s = wsBody (extOf rx join) qs toks i s)
+/-- the loop over the positions `k, k+1, …` of the tokens, in whatever form the code enumerates them (`mk`: the
+    index alone for `for i := 0; i < len(tokens); i++`, the index with the token for `for i, other := range tokens`);
+    the body is abstract: at position `j` it does what `wsStep` does with the two tokens at `j` -/
+theorem ws_loop {ι : Type} (mk : Nat → ι) (rx : Str → Str → Bool × GoErr) (full : Str → Str → Bool)
+    (join : Str → Str → Str)
+    (qs toks : List Str) (f : ι → WsState → Option (ForInStep WsState))
+    (hf : ∀ (j : Nat) (each other : Str) (s : WsState), qs[j]? = some each → toks[j]? = some other →
+      f (mk j) s = wsStep (extOf rx join) toks (j : Int) each other s)
     (hq : toks.length ≤ qs.length)
     (n k : Nat) (hk : k + n = toks.length) (acc : Nat) (sc : Int) (hsc : sc = (acc : Int)) :
-    (forIn (m := Option) ((List.range' k n).map (fun k : Nat => (k : Int))) ⟨none, sc⟩ f).map wsPost
+    (forIn (m := Option) ((List.range' k n).map mk) ⟨none, sc⟩ f).map wsPost
       = ofScore (Curly.scoreWalkE (envOf rx full) (toks.drop k) (qs.drop k) acc) := by
   induction n generalizing k acc sc with
   | zero =>
@@ -47,9 +55,10 @@ theorem ws_loop (rx : Str → Str → Bool × GoErr) (full : Str → Str → Boo
     have hlq : k < qs.length := by omega
     have hts : (toks.drop (k + 1)).length = n := by simp; omega
     rw [List.drop_eq_getElem_cons hlt, List.drop_eq_getElem_cons hlq]
-    simp only [List.range'_succ, List.map_cons, List.forIn_cons, hf, wsBody, at?_nat,
-      List.getElem?_eq_getElem hlt, List.getElem?_eq_getElem hlq, Option.bind_eq_bind, Option.bind_some,
-      Curly.scoreWalkE, len_beq_zero, len_pos, index_single, hts]
+    simp only [List.range'_succ, List.map_cons, List.forIn_cons,
+      hf k qs[k] toks[k] _ (List.getElem?_eq_getElem hlq) (List.getElem?_eq_getElem hlt), wsStep,
+      Option.bind_eq_bind, Option.bind_some,
+      Curly.scoreWalkE, index_single, hts, nonempty_and_hasPrefix]
     have hsc' : (len toks - (k : Int)) * 10 = (((n + 1) * 10 : Nat) : Int) := by
       simp only [len]; omega
     rw [hsc']
@@ -61,7 +70,7 @@ theorem ws_loop (rx : Str → Str → Bool × GoErr) (full : Str → Str → Boo
     by_cases c1 : (each.isEmpty && other.isEmpty) = true
     · simp [-List.forIn_map, c1, ih1]
     · simp only [c1]
-      by_cases c2 : (!other.isEmpty && Str.hasPrefix ['{'] other) = true
+      by_cases c2 : (Str.hasPrefix ['{'] other) = true
       · simp only [c2]
         by_cases c3 : each.isEmpty = true
         · simp [c3, wsPost, scoreProj, ofScore]
@@ -90,20 +99,37 @@ theorem range_zero_len {α : Type} (xs : List α) :
     Imp.range 0 (len xs) = (List.range' 0 xs.length).map (fun k : Nat => (k : Int)) :=
   range_nat_len 0 xs
 
+/-- `for i, x := range xs` enumerates the positions `0 … len(xs)-1`, each with its element -/
+theorem enum_eq_range_map (xs : List Str) :
+    Imp.enum xs = (List.range' 0 xs.length).map (fun k : Nat => ((k : Int), xs.getD k [])) := by
+  unfold Imp.enum
+  apply List.ext_getElem
+  · simp
+  · intro i h1 h2
+    simp at h1
+    simp [h1]
+
 theorem webservice_score (rx : Str → Str → Bool × GoErr) (full : Str → Str → Bool) (join : Str → Str → Str)
     (qs toks : List Str) :
     (ImpGen.CurlyRouter_computeWebserviceScore (extOf rx join) qs toks).map scoreProj
       = ofScore (Curly.wsScoreE (envOf rx full) qs toks) := by
   unfold ImpGen.CurlyRouter_computeWebserviceScore Curly.wsScoreE
-  simp only [String.reduceToList, range_zero_len]
+  simp only [String.reduceToList, range_zero_len, enum_eq_range_map]
   by_cases h : toks.length > qs.length
   · have : len toks > len qs := by simp only [len]; omega
     simp [h, this, ofScore, scoreProj]
   · have h' : ¬ (len toks > len qs) := by simp only [len]; omega
     simp only [h', h, decide_false, if_false, Bool.false_eq_true]
-    have key := fun f hf => ws_loop rx full join qs toks f hf (by omega) toks.length 0 (by omega) 0 0 rfl
+    have key := fun {ι : Type} (mk : Nat → ι) f hf =>
+      ws_loop mk rx full join qs toks f hf (by omega) toks.length 0 (by omega) 0 0 rfl
     simp only [List.drop_zero] at key
-    refine (ws_post_eq _ _ ?_).trans (key _ (fun _ _ => rfl))
+    refine (ws_post_eq _ _ ?_).trans (key _ _ ?hf)
+    case hf =>
+      intro j each other s h1 h2
+      have h3 : toks.getD j [] = other := by simp [h2]
+      simp only [at?_nat, h1, h2, h3, Option.bind_eq_bind, Option.bind_some]
+      tie_norm
+      tie_step [wsStep]
     rintro ⟨a, b⟩
     cases a <;> rfl
 
